@@ -235,25 +235,25 @@ def e4_jobs(ctx, spec, cfg, mode, lengths, maxnul=0, timeout=600, mem_mb=10000, 
 
 
 def api_jobs(ctx, spec, cfg, lengths, alloc_fail=False, second_lex=False, checks='functional', timeout=600,
-             mem_mb=10000, witness_len=None, tagx='', ops=(0, 1, 2, 3, 4, 5)):
+             mem_mb=10000, witness_len=None, tagx='', ops=(0, 1, 2, 3, 4, 5), fail_ats=(None,)):
     """Buffer-API history jobs with the allocation ledger (C11/C13/C14)."""
     wd, g = _prep(ctx, spec, cfg, 'api' + tagx, extra_options=ALLOC_OPTS)
     jobs = []
     if not g.ok:
         return jobs, g
-    for n, op in [(n, op) for n in lengths for op in ops]:
+    for n, op, fa in [(n, op, fa) for n in lengths for op in ops for fa in fail_ats]:
         for w in ([False, True] if (witness_len == n and op == ops[0]) else [False]):
-            tag = 'api%s%s%s_n%d_op%d%s' % (tagx, '_af' if alloc_fail else '', '_2' if second_lex else '', n, op, '_w' if w else '')
+            tag = 'api%s%s%s_n%d_op%d%s%s' % (tagx, '_af' if alloc_fail else '', '_2' if second_lex else '', n, op, '' if fa is None else '_k%d' % fa, '_w' if w else '')
             src = os.path.join(wd, tag + '.c')
             with open(src, 'w') as fh:
-                fh.write(H.api_harness(g, cfg, spec, n, witness=w, alloc_fail=alloc_fail, second_lex=second_lex, op=op))
+                fh.write(H.api_harness(g, cfg, spec, n, witness=w, alloc_fail=alloc_fail, second_lex=second_lex, op=op, fail_at=fa))
             b = scanner_bounds(g, n, 0)
             j = cbmc.Job('%s_%s_%s' % (tag, spec.name, cfg.name), wd, [src], b, includes=[wd, H.HDIR], checks=checks,
                          harness_bound=None, timeout=timeout, mem_mb=mem_mb, gen_file=g.cpath,
                          expect='witness' if w else 'proved',
                          meta=dict(engine='E4', entry=spec.name, config=cfg.name,
                                    bound='two buffers of %d bytes, buffer operation %d after a yylex step%s%s'
-                                   % (n, op, ', failing allocation index symbolic' if alloc_fail else '', ', then a second step' if second_lex else ''),
+                                   % (n, op, (', allocation request %s fails' % ('k (symbolic)' if fa is None else fa)) if alloc_fail else '', ', then a second step' if second_lex else ''),
                                    flex_input=g.ltext, flex_args=g.args))
             jobs.append(j)
     ctx.functions.update(['yy_scan_buffer', 'yy_scan_bytes', 'yy_switch_to_buffer', 'yypush_buffer_state', 'yypop_buffer_state',
